@@ -50,6 +50,9 @@ pub enum Op {
     LoadFactor,
     /// `count` fresh keys in a row (fills large tables past their capacity)
     PutMany(u32, u16),
+    /// `count` clears in a row (hundreds: a table is cleared once per game for the lifetime of the process)
+    #[serde(alias = "ClearMany")]
+    ClearMany(u16),
 }
 
 fn op_strategy() -> impl Strategy<Value = Op> {
@@ -60,6 +63,7 @@ fn op_strategy() -> impl Strategy<Value = Op> {
         1 => Just(Op::Len),
         1 => Just(Op::LoadFactor),
         1 => (0..4u32, prop_oneof![2 => 1..40u16, 1 => 1000..6000u16]).prop_map(|(b, n)| Op::PutMany(b, n)),
+        1 => prop_oneof![2 => 1..6u16, 3 => proptest::sample::select(vec![127u16, 128, 255, 256, 257, 511, 512, 513, 1024]), 1 => 100..700u16].prop_map(Op::ClearMany),
     ]
 }
 
@@ -90,6 +94,7 @@ pub fn check_history(h: &History, ctx: &mut Ctx) -> Result<(), String> {
     let mut evicted: Vec<u64> = Vec::new();
     let mut fresh: u64 = 0;
     let mut looked_after_eviction = false;
+    let mut many_clears = false;
     for (i, op) in h.ops.iter().enumerate() {
         let ctxt = |what: String| format!("capacity {}, after operation #{i} of {:?}: {what}", h.capacity, &h.ops[..=i]);
         match op {
@@ -151,6 +156,16 @@ pub fn check_history(h: &History, ctx: &mut Ctx) -> Result<(), String> {
                 queue.clear();
                 map.clear();
             }
+            Op::ClearMany(n) => {
+                for _ in 0..*n {
+                    table.clear();
+                }
+                queue.clear();
+                map.clear();
+                if *n >= 100 {
+                    many_clears = true;
+                }
+            }
             Op::Len => {}
             Op::LoadFactor => {}
         }
@@ -193,6 +208,9 @@ pub fn check_history(h: &History, ctx: &mut Ctx) -> Result<(), String> {
     if !evicted.is_empty() && (looked_after_eviction || !h.ops.is_empty()) {
         // every step looks up all 12 keys, so an eviction is always followed by lookups of evicted and surviving keys
         ctx.nontrivial((h.capacity, &h.ops));
+    }
+    if many_clears {
+        ctx.class("hundreds_of_clears_in_a_row");
     }
     ctx.sample(|| serde_json::json!({"capacity": h.capacity, "ops": h.ops.iter().take(20).collect::<Vec<_>>(), "evictions": evicted.len()}));
     Ok(())
